@@ -18,6 +18,7 @@
  *   12 register a sink-latency request on the queue sink   13 unregister it   14 the consumer-side sink answers what is
  *   lodged with it   15 producer oob callback (answers travelling back)          (C12 across the queue)
  *   16 set_max_length(queue sink, symbolic) + get   17 every getter of both pipes               (C20)
+ *   21-24 / 26-29 arm a nested callback at the k-th queue push / pop from now (finer than callback granularity)
  * After the script both pipes are released (if not yet) and the loops run until nothing is ready. */
 #define ENV_WITH_UPUMP 1
 #define ENV_SINK_HOOKS 1
@@ -78,6 +79,35 @@ static bool mdl_readable(int fd)
 }
 #endif
 
+/* Finer than a callback: the other thread's callback may run BETWEEN two queue operations of one call.  The pipes'
+ * uqueue_push / uqueue_pop go through these wrappers (the real inline functions underneath); operations 21-24 arm
+ * "before the k-th push from now, the consumer's worker runs", 26-29 "before the k-th pop from now, the producer's
+ * watcher runs" (if ready, as always). */
+#include "upipe/uqueue.h"
+static int arm_push, arm_pop;
+static bool in_nested;
+static bool run_cb(int which);
+static inline bool hk_uqueue_push(struct uqueue *q, void *e)
+{
+    if (arm_push > 0 && !in_nested && --arm_push == 0) {
+        in_nested = true;
+        (void)run_cb(1);
+        in_nested = false;
+    }
+    return (uqueue_push)(q, e);
+}
+static inline void *hk_uqueue_pop(struct uqueue *q)
+{
+    if (arm_pop > 0 && !in_nested && --arm_pop == 0) {
+        in_nested = true;
+        (void)run_cb(3);
+        in_nested = false;
+    }
+    return uqueue_pop_internal(q);
+}
+#define uqueue_push(q, e) hk_uqueue_push(q, e)
+#undef uqueue_pop
+#define uqueue_pop(q, type) (type)hk_uqueue_pop(q)
 #include "lib/upipe-modules/upipe_queue.c"
 #include "lib/upipe-modules/upipe_queue_source.c"
 #include "lib/upipe-modules/upipe_queue_sink.c"
@@ -282,6 +312,12 @@ int main(void)
                 break;
             case 15:
                 (void)run_cb(4);
+                break;
+            case 21: case 22: case 23: case 24:
+                arm_push = ops[k] - 20;
+                break;
+            case 26: case 27: case 28: case 29:
+                arm_pop = ops[k] - 25;
                 break;
             case 16: {      /* C20: setter then getter (symbolic value, getter output pre-loaded with symbolic junk) */
                 unsigned int v = nd_u32(), g = nd_u32();
